@@ -337,6 +337,14 @@ theorem storeKeysNodup_preNorm {st : Store} (hst : RPerm.StoreKeysNodup st) :
 /-- no duplicate in PropertyOrder (one of MarshalJSON's own checks) -/
 def orderOK (n : Node) : Bool := !hasDup (n.propertyOrder.getD [])
 
+/-- MarshalJSON's own checks include it -/
+theorem orderOK_of_nodeOK (n : Node) (h : nodeOK n = true) : orderOK n = true := by
+  simp only [nodeOK, Bool.and_eq_true] at h
+  have hm : basicChecksOk n = true := h.1.1.1.1.1.1.1.1.1.1.1.1.1
+  rw [basicChecksOk_eq] at hm
+  simp only [Bool.and_eq_true] at hm
+  exact hm.1.2
+
 /-- `b` (in `st'`) is the tree read back from the tree below `a` (in `st`), at some depth; no schema object below `a`
     has a duplicate in its PropertyOrder -/
 def TreeEqS (st st' : Store) (a b : NodeId) : Prop := ∃ d, TreeEq st st' d a b ∧ treeAll orderOK st d a = true
